@@ -122,8 +122,18 @@ def build_event(s):
     raise ValueError(k)
 
 
+_LATE = BoboEventSimple('late', -1, 'appended by the caller after the history was built')
+
+
 def build_hist(h):
-    return BoboHistory({name: [build_event(e) for e in evs] for name, evs in h})
+    d = {name: [build_event(e) for e in evs] for name, evs in h}
+    hist = BoboHistory(d)
+    # the caller goes on using ITS dictionary and lists: a history (and the record holding it, wherever it waits before it
+    # is serialised) is a snapshot of what it was given
+    for name in list(d):
+        d[name].append(_LATE)
+    d['late-group'] = [_LATE]
+    return hist
 
 
 def build_run(r):
